@@ -16,5 +16,7 @@ CONSTANTS
   AllowReuse = FALSE
   AllowLin3 = TRUE
   AllowDrop = FALSE
+  AllowBnShare = FALSE
+  PlainOps = {"relu", "pool", "flat", "add"}
   AllowFindings = TRUE
   MaxHist = 0
